@@ -70,8 +70,49 @@ def random_threads_doc(r, nthreads, names, types, desired):
     return {"desired": desired, "phases": phases}
 
 
+class Hung(Exception):
+    pass
+
+
+def run_cache(v, pid, cmd, inp, out, ops, tier):
+    """the harness on a cache history; an operation that never returns (or takes the process down) is data:
+    C15 demands that pruning terminates, C05 / C15 are about operations that return"""
+    import subprocess
+    exe = vlib.build_harness()
+    limit = 240 if tier == "quick" else 1800
+    try:
+        p = subprocess.run([exe, cmd, inp, out], stdout=subprocess.PIPE, stderr=subprocess.PIPE, text=True, timeout=limit)
+        if p.returncode == 0:
+            return
+        reason = "the process ended with status %d: %s" % (p.returncode, p.stderr[-300:])
+    except subprocess.TimeoutExpired:
+        reason = "no return within %d s" % limit
+    events = read_ndjson(out) if os.path.exists(out) else []
+    # the history that was running: as many `reset` events as were written = the reset line that started it
+    nreset = sum(1 for e in events if e.get("ev") == "reset")
+    if cmd == "cache-run":
+        starts = [i for i, o in enumerate(ops) if o.get("op") == "reset"]
+        a = starts[nreset - 1] if 0 < nreset <= len(starts) else 0
+        b = starts[nreset] if nreset < len(starts) else len(ops)
+        history = ops[a:b]
+    else:
+        history = ops[nreset - 1] if 0 < nreset <= len(ops) else None
+    v.violation("a cache operation did not return (%s)" % reason,
+                {"command": cmd, "events_written_before": len(events), "history": history,
+                 "last_events": [{k: e[k] for k in e if k != "post"} for e in events[-5:]]})
+    raise Hung()
+
+
 def run(pid, tier):
     v = Verdict(pid, tier, "model_checking")
+    try:
+        return run_(v, pid, tier)
+    except Hung:
+        v.notes["run_incomplete"] = True
+        return v.finish()
+
+
+def run_(v, pid, tier):
     v.rule = ("MC: every history (any number of insert / get / ANY get / prune / tick steps) of the code-shaped cache "
               "model over 2 names x 2 types, TTL 0..2 s, half-second ticks, checked against the user-level relations "
               "of module Cache on every transition; GEN: a walk over the real cache covering every transition of a "
@@ -100,7 +141,7 @@ def run(pid, tier):
     inp = os.path.join(wd, "walk.in.ndjson")
     out = os.path.join(wd, "walk.out.ndjson")
     write_ndjson(inp, ops)
-    vh(["cache-run", inp, out])
+    run_cache(v, pid, "cache-run", inp, out, ops, tier)
     events = read_ndjson(out)
     v.notes["graph_edges"] = len(es)
     v.notes["graph_walk_segments"] = len(segs)
@@ -122,7 +163,7 @@ def run(pid, tier):
     inp = os.path.join(wd, "rand.in.ndjson")
     out = os.path.join(wd, "rand.out.ndjson")
     write_ndjson(inp, ops)
-    vh(["cache-run", inp, out])
+    run_cache(v, pid, "cache-run", inp, out, ops, tier)
     events = read_ndjson(out)
     # validate in chunks of whole segments to bound TLC's heap
     bounds = cc.segment_bounds(events)
@@ -147,7 +188,7 @@ def run(pid, tier):
     inp = os.path.join(wd, "thr.in.ndjson")
     out = os.path.join(wd, "thr.out.ndjson")
     write_ndjson(inp, docs)
-    vh(["cache-threads", inp, out])
+    run_cache(v, pid, "cache-threads", inp, out, docs, tier)
     events = read_ndjson(out)
     bounds = cc.segment_bounds(events)
     chunk = []
